@@ -61,6 +61,7 @@ def run(ctx):
         ('G-exec-long', 10, 200, dict(max_ticks=500, p_bad=0.0)),
         ('G-exec-twins', 40, 600, dict(twins=True)),
         ('G-exec-burst', 80, 1200, dict(burst=True)),
+        ('G-exec-waves', 80, 1500, dict(waves=True)),
     ], nontrivial=lambda run: any(x['err'] for e in run.trace if not e['err'] for x in e['results'])
         or any(e['cmd']['susp'] for e in run.trace))
     out['rule'] = ('G-exec command fuzzer (see C03) with fixed- and growing-memory operators sized around the allocations, '
